@@ -132,6 +132,10 @@ static mbstate_t state;
 // returns the number of bytes in c
 // returns -1 if c is not a valid utf8 character
 size_t utf8_char_to_string(char *s, int32_t c) {
+	// values beyond U+10FFFF would be encoded in 5 or 6 bytes by some libc implementations
+	if (utf8_num_bytes_char((uint32_t)c) == (size_t)-1) {
+		return (size_t)-1;
+	}
 	size_t num_bytes = c32rtomb(s, c, &state);
 	if (num_bytes != (size_t)-1) {
 		s[num_bytes] = '\0';
